@@ -592,6 +592,54 @@ def circuit_unitary_rule():
     return "gate.get_compact_qobj()"
 
 
+def get_qobj_rule():
+    """`Gate.get_qobj` / `Gate.get_all_qubits` (gateclass.py) and the `expand=True` branch of `QubitCircuit.propagators`:
+    the operator on the register is `expand_operator(self.get_compact_qobj(), dims=dims, targets=self.get_all_qubits())`
+    with `get_all_qubits() = self.controls + self.targets` (controls first, in the order the object stores them); no class
+    overrides either method.  -> the rule as a string"""
+    tree = ast.parse(open(os.path.join(REPO, SRC)).read())
+    found = {}
+    for node in tree.body:
+        if isinstance(node, ast.ClassDef):
+            for m in node.body:
+                if isinstance(m, ast.FunctionDef) and m.name in ("get_qobj", "get_all_qubits"):
+                    if node.name != "Gate":
+                        raise TranslatorError(f"class {node.name} overrides {m.name}")
+                    found[m.name] = m
+    if set(found) != {"get_qobj", "get_all_qubits"}:
+        raise TranslatorError("Gate.get_qobj / Gate.get_all_qubits not found")
+    ga = [st for st in found["get_all_qubits"].body if not (isinstance(st, ast.Expr) and isinstance(st.value, ast.Constant))]
+    ok = len(ga) >= 1 and isinstance(ga[0], ast.If) and ast.unparse(ga[0].test) == "self.controls is not None" \
+        and len(ga[0].body) == 1 and ast.unparse(ga[0].body[0]) == "return self.controls + self.targets"
+    if not ok:
+        raise TranslatorError("Gate.get_all_qubits: not `if self.controls is not None: return self.controls + self.targets`")
+    gq = found["get_qobj"]
+    rets = [n for n in ast.walk(gq) if isinstance(n, ast.Return)]
+    last = gq.body[-1]
+    ok = isinstance(last, ast.Return) and isinstance(last.value, ast.Call) and getattr(last.value.func, "id", None) == "expand_operator" \
+        and [ast.unparse(a) for a in last.value.args] == ["self.get_compact_qobj()"] \
+        and {k.arg: ast.unparse(k.value) for k in last.value.keywords} == {"dims": "dims", "targets": "all_targets"}
+    assigns = [ast.unparse(n) for n in gq.body if isinstance(n, ast.Assign)]
+    ok = ok and "all_targets = self.get_all_qubits()" in assigns and all(a.startswith("all_targets = self.get_all_qubits()") or
+                                                                           not a.startswith("all_targets") for a in assigns)
+    for n in ast.walk(gq):
+        if isinstance(n, (ast.Assign, ast.AugAssign)):
+            for t in (n.targets if isinstance(n, ast.Assign) else [n.target]):
+                if "all_targets" in ast.unparse(t) and ast.unparse(n) != "all_targets = self.get_all_qubits()":
+                    ok = False
+    if not ok:
+        raise TranslatorError("Gate.get_qobj: not `return expand_operator(self.get_compact_qobj(), dims=dims, "
+                              "targets=all_targets)` with all_targets = self.get_all_qubits()")
+    ctree = ast.parse(open(os.path.join(REPO, "src", "qutip_qip", "circuit", "circuit.py")).read())
+    cls = next(n for n in ctree.body if isinstance(n, ast.ClassDef) and n.name == "QubitCircuit")
+    prop = next((m for m in cls.body if isinstance(m, ast.FunctionDef) and m.name == "propagators"), None)
+    src = ast.unparse(prop) if prop is not None else ""
+    if "all_targets = gate.get_all_qubits()" not in src or \
+            "qobj = expand_operator(qobj, dims=self.dims, targets=all_targets)" not in src:
+        raise TranslatorError("QubitCircuit.propagators: expansion with gate.get_all_qubits() not recognised")
+    return "expand_operator(compact, dims, controls + targets)"
+
+
 def lean_bool(b):
     return "true" if b else "false"
 
@@ -622,6 +670,9 @@ def render(tables=None):
     L.append("/-- `QubitCircuit._get_gate_unitary(gate)` for a library gate (extracted from circuit.py; the method and\n"
              "`propagators` write no state of the circuit) -/")
     L.append(f'def circuitGateUnitary : String := "{circuit_unitary_rule()}"\n')
+    L.append("/-- `Gate.get_qobj(dims)` and `propagators(expand=True)`: the compact matrix expanded with targets = the stored\n"
+             "controls followed by the targets (extracted; no class overrides get_qobj / get_all_qubits) -/")
+    L.append(f'def gateGetQobj : String := "{get_qobj_rule()}"\n')
     L.append("end QipVerif.Gen.G")
     return "\n".join(L) + "\n", d
 
